@@ -16,6 +16,7 @@ mod c16;
 mod c18;
 mod dump;
 mod front;
+mod gen;
 mod ir;
 
 pub fn guarded<F: FnOnce() -> Value>(f: F) -> Value {
@@ -39,6 +40,7 @@ fn dispatch(v: &Value) -> Value {
     match cmd {
         "rename_direct" | "rename_e2e" | "serde_case" | "unicode" => c16::handle(cmd, v),
         "parse" => front::handle(cmd, v),
+        "generate" | "generate_ir" => gen::handle(cmd, v),
         "toposort_impl" | "sort_by_indices" | "topsort" => c11::handle(cmd, v),
         "c18" | "c18_from" | "c18_json" | "c18_cmp" => c18::handle(cmd, v),
         "ast" | "ast_type" => ast::handle(cmd, v),
